@@ -1,0 +1,11 @@
+//go:build verif
+// +build verif
+
+package raft
+
+// Lemma functions for the deductive verifier in /verif (govc); never called by production code.
+
+// lemmaHardStateRoundTrip: what hardState() reports is exactly what loadState() restores.
+func lemmaHardStateRoundTrip(r *raft, r2 *raft) {
+	r2.loadState(r.hardState())
+}
